@@ -7,6 +7,7 @@ CONSTANT Ws = {0, 1, 2, 3}
 CONSTANT Times = {0, 1, 2, 3, 4}
 CONSTANT Receivers = {0}
 CONSTANT AllowClose = FALSE
+CONSTANT MaxMult = 1
 CONSTANT MaxLen = 4
 INVARIANT HeapCacheAgree
 INVARIANT Conservation
